@@ -13,7 +13,7 @@ mkdir -p .deps
   /venv/bin/pip install -q --no-index --find-links /opt/veriftools/wheels --target .deps atheris || true
 mkdir -p tools/stubbin
 gcc -O1 -Wall -o tools/stubbin/rec tools/src/rec.c
-for n in cc c++ ar yacc gen rec2 drv cp ln doppel patchelf; do cp -f tools/stubbin/rec tools/stubbin/$n; done
+for n in cc c++ ar yacc lex gen rec2 drv cp ln doppel patchelf; do cp -f tools/stubbin/rec tools/stubbin/$n; done
 mkdir -p tools/wrapbin
 for n in gccw g++w clangw; do cp -f tools/stubbin/rec tools/wrapbin/$n; done
 /venv/bin/python -c "import bfg9000; print('bfg9000', bfg9000.__file__)"
